@@ -1207,6 +1207,72 @@ def slide(a, k):
     return b
 
 
+# ------------------------------------------------------------------ values built through the public constructors (op api)
+NASTY_STRINGS = ['a"b', 'the "director\'s cut" edition', '"', '""', 'x\ny', 'x\r\ny', 'a,b', 'k=v', ' padded ', 'plain', 'caf\u00e9 "\u65e5\u672c"', '\t', 'NONE', '0x1F', '1.5', "#EXT"]
+
+
+def api_cases(g, strings, idp, n0, tier_count):
+    """(case, kind) list: every api KIND over the given string pool"""
+    out = []
+    n = n0
+
+    def add(kind, *args):
+        nonlocal n
+        out.append(mk(idp, n, "api", kind, *args, kind=kind, model=False))
+        n += 1
+    for s_ in strings:
+        h = hx(s_)
+        add("value_string", h)
+        add("value_from_string", h)
+        add("inf_title", g.pick([0, 1500000000, 9999999999]), h)
+        add("map", h)
+        add("map_range", h, 5, 12)
+        add("map_range_to", h, 720)
+        for ty in ("AUDIO", "VIDEO"):
+            add("media", hx(ty), h, hx("n"))
+            add("media", hx(ty), hx("g"), h)
+        add("session_data_value", h, hx("v"))
+        add("session_data_value", hx("id"), h)
+        add("session_data_uri", hx("id"), h)
+        add("session_data_lang", hx("id"), hx("v"), h)
+        add("daterange", h, hx("2014-03-05T11:15:00Z"))
+        add("daterange", hx("id"), h)
+        add("daterange_client", hx("id"), hx("2014-03-05T11:15:00Z"), hx("X-A"), h)
+        for meth in ("AES-128", "SAMPLE-AES"):
+            add("key", hx(meth), h)
+        add("session_key", hx("AES-128"), h)
+        add("codecs", h, hx("mp4a.40.2"))
+        add("iframe", h, 1000)
+        add("streaminf", h, 1000)
+    for _ in range(tier_count):
+        add("value_hex", g.hexbytes(g.r.randint(0, 6)).hex())
+        add("value_float", hx(g.f32_text()))
+        add("inf", g.pick([0, 1, 999999999, 10 ** 9, gen.dur_ns(g.duration_text(10 ** 6))]))
+        add("stream_data", g.u64())
+        add("start", hx(g.f32_text()), g.pick([0, 1]))
+        add("start_new", hx(g.f32_text()))
+        add("resolution", g.pick([0, 1, 1920, 2 ** 32]), g.pick([0, 1, 1080, 2 ** 32]))
+        add("channels", g.u64())
+        a_, b_ = sorted([g.small(10 ** 6), g.small(10 ** 6)])
+        add("byte_range", a_, b_)
+        add("byte_range_to", g.small(10 ** 6))
+        add("kfv", hx("new:" + "/".join(str(g.pick([0, 0, 1, 2, 255])) for _ in range(g.r.randint(1, 9)))))
+        add("kfv", hx("1/2/3#%d+%d" % (g.r.randint(0, 3), g.pick([0, 9]))))
+        add("iv_aes", g.iv().hex())
+        add("iv_number", g.pick([0, 1, 2 ** 64, 2 ** 128 - 1]))
+        add("key_iv_number", hx("AES-128"), hx("k"), g.pick([0, 7, 2 ** 64]))
+    add("iv_missing")
+    return out
+
+
+def api_fields(i):
+    """ok (api B1 B2 DUMPX DUMPO TEXTX TEXTO RE) -> dict or None"""
+    if not (i or "").startswith("ok "):
+        return None
+    t = parse_sexp(i)[1]
+    return {"b1": t[1], "b2": t[2], "dx": unparse(t[3]), "do": unparse(t[4]), "tx": unparse(t[5]), "to": unparse(t[6]), "re": t[7]}
+
+
 # ------------------------------------------------------------------ C17
 @register
 class C17(Prop):
@@ -1230,10 +1296,23 @@ class C17(Prop):
             else:
                 text = gen.render_master(gen.gen_master(g), g)
                 out.append(mk("o", n, "own_master", hx(text), model=False, kind="own"))
+        # values only the public constructors can build (strings with quotes / line breaks, Number IVs, stale buffers ...)
+        for c in api_cases(g, NASTY_STRINGS + [g.qstring() for _ in range(count_tier(tier, 10, 200))], "a", len(out), count_tier(tier, 20, 400)):
+            c["meta"]["apikind"] = c["meta"]["kind"]
+            c["meta"]["kind"] = "api"
+            out.append(c)
         return out
 
     def judge(self, run, c, m, i):
         kind = c["meta"]["kind"]
+        if kind == "api":
+            f = api_fields(i)
+            if f is None:
+                return {"agree": None, "ok": res_kind(i) != "panic" and None, "nontrivial": False, "detail": "api op: " + res_kind(i), "stats": {"api_" + res_kind(i): 1}}
+            ok = f["b1"] == "1" and f["b2"] == "1" and f["dx"] == f["do"] and f["tx"] == f["to"]
+            return {"agree": None, "ok": ok, "nontrivial": True, "stats": {"api_own": 1},
+                    "detail": "" if ok else "%s built through the public API: clone/into_owned is not interchangeable with the original (== %s,%s; content %s vs %s)" % (
+                        c["meta"]["apikind"], f["b1"], f["b2"], f["dx"][:200], f["do"][:200])}
         if kind == "own":
             if not (i or "").startswith("ok "):
                 return {"agree": None, "ok": None, "nontrivial": False}
@@ -1920,6 +1999,18 @@ class C18(Prop):
             mr = "none" if mp["range"] is None else ("(r none %d)" % mp["range"][0] if mp["range"][1] is None else "(r %d %d)" % (mp["range"][1], mp["range"][1] + mp["range"][0]))
             add("ExtXMap", gen.map_line(mp, None), exp="(map (uri %s) (range %s) (keys) (dlen 0) (dfirst none))" % (S_(mp["uri"]), mr))
         add("ExtXKey", "#EXT-X-KEY:METHOD=NONE")
+        # values built through the public constructors, written and parsed back (strings a quoted-string can carry)
+        clean = [w for w in gen.WORDS if "," not in w] + [g.qstring().replace(",", ";") for _ in range(count_tier(tier, 10, 100))]
+        clean = [w.strip() or "w" for w in clean]
+        for c in api_cases(g, clean, "a", 0, count_tier(tier, 30, 500)):
+            if c["meta"]["kind"] in ("iv_number", "iv_missing", "key_iv_number", "value_from_string"):
+                continue          # not text forms of their own: a derived / missing IV is never written (C07)
+            if c["meta"]["kind"] == "daterange" and unhex(c["args"][1]) != "id":
+                continue
+            c["id"] = "a%d" % n
+            c["meta"].update(ty="api:" + c["meta"]["kind"], api=True)
+            out.append(c)
+            n += 1
         # float types: accept exactly the finite numbers
         specials = ["0", "-0", "+0", "1", "-1", "1.5", "3.4028235e38", "3.4028236e38", "-3.4028235e38", "1e39", "-1e39", "1e-46", "1.4e-45", "1e-50", "inf", "-inf",
                     "+inf", "infinity", "nan", "NaN", "-nan", "", ".", "e5", "1e", "1_0", "0x10", " 1", "1 ", ".5", "5.", "1e5", "1E5", "16777217", "0.1", "123456.789",
@@ -1967,6 +2058,13 @@ class C18(Prop):
 
     def judge(self, run, c, m, i):
         agree = (m == i) if m is not None else None
+        if c["meta"].get("api"):
+            f = api_fields(i)
+            if f is None:
+                return {"agree": None, "ok": None if res_kind(i) == "badinput" else False, "nontrivial": False, "detail": "api op: " + res_kind(i), "stats": {"api_" + res_kind(i): 1}}
+            ok = f["re"][1] == "ok" and unparse(f["re"][2]) == f["dx"]
+            return {"agree": None, "ok": ok, "nontrivial": True, "stats": {c["meta"]["ty"]: 1},
+                    "detail": "" if ok else "value built by the public constructor %s: parsing its own text gives %s, not %s" % (c["meta"]["kind"], unparse(f["re"])[:300], f["dx"][:300])}
         acc = c["meta"].get("accept")
         if acc is not None:
             ok = (res_kind(i) == "ok") == acc
@@ -1998,11 +2096,13 @@ LAW_POOLS = {
     "Codecs": ["a", "a,b", "b,a", "a,b,c", ""],
     "ClosedCaptions": ["NONE", '"NONE"', '"a"', '"b"'],
     "KeyFormat": ['"identity"', "identity", '"com.apple.streamingkeydelivery"', '"x"', '"y"'],
-    "InitializationVector": ["0x" + "00" * 16, "0x" + "00" * 15 + "01", "0X" + "FF" * 16, "0x" + "ff" * 16],
+    "InitializationVector": ["0x" + "00" * 16, "0x" + "00" * 15 + "01", "0X" + "FF" * 16, "0x" + "ff" * 16, "num:0", "num:1", "num:255", "missing",
+                             "0x" + "00" * 15 + "ff", "num:340282366920938463463374607431768211455"],
     "Value": ['"a"', '"b"', "0x00", "0x0000", "1.5", "0", "-0", '"1.5"'],
     "DecryptionKey": ['METHOD=AES-128,URI="k"', 'METHOD=AES-128,URI="k",KEYFORMATVERSIONS="1/2"', 'METHOD=AES-128,URI="k",KEYFORMATVERSIONS="3/4"',
                       'METHOD=AES-128,URI="k",KEYFORMAT="identity"', 'METHOD=SAMPLE-AES,URI="k"', 'METHOD=AES-128,URI="k2"',
-                      'METHOD=AES-128,URI="k",IV=0x' + "00" * 16, 'METHOD=AES-128,URI="k",KEYFORMATVERSIONS="1/2/3"'],
+                      'METHOD=AES-128,URI="k",IV=0x' + "00" * 16, 'METHOD=AES-128,URI="k",KEYFORMATVERSIONS="1/2/3"',
+                      'METHOD=AES-128,URI="k"#ivnum=0', 'METHOD=AES-128,URI="k"#ivnum=7', 'METHOD=AES-128,URI="k",IV=0x' + "00" * 15 + "07"],
     "ExtXKey": ["#EXT-X-KEY:METHOD=NONE", '#EXT-X-KEY:METHOD=AES-128,URI="k"', '#EXT-X-KEY:METHOD=AES-128,URI="k",KEYFORMATVERSIONS="1/2"',
                 '#EXT-X-KEY:METHOD=AES-128,URI="k",KEYFORMATVERSIONS="2/1"'],
     "ExtInf": ["#EXTINF:1,", "#EXTINF:1,t", "#EXTINF:2,", "#EXTINF:1.000000001,"],
